@@ -61,14 +61,23 @@ def run(ctx):
         rnd.shuffle(classes)
         classes = [c for c in classes if c['par']['shape'] != 'cached'] + [c for c in classes if c['par']['shape'] == 'cached'][:300]
     scens = [scenario(c, random.Random(ctx.seed * 7919 + i)) for i, c in enumerate(classes * (8 if ctx.thorough else 1))]
-    out = cachesim.run_scenarios(ctx, tree, scens, 6)
+    out = cachesim.run_scenarios_stores(ctx, tree, scens, 6, disk_sample=40)
     hist = [{'ev': cachesim.strip_for_tlc(ev)} for _, ev in out]
     rej = escen.validate(ctx, os.path.join(SPEC, 'Trace_Conditional.tla'), os.path.join(SPEC, 'Trace_Conditional.cfg'), hist, 'cond')
     ctx.log('realised %d scenarios; P-rejected %d' % (len(out), len(rej)))
-    for i in rej[:5]:
+    ctx.cov['rejected_by_store'] = {st: sum(1 for i in rej if out[i][0].get('store') == st) for st in ('mem', 'rock', 'ufs')}
+    seen_cls = set()
+    for i in rej:
         s, ev = out[i]
-        ctx.violation('conditional request answered against Conditional.tla: %s' % json.dumps(s['par']),
-                      {'kind': 'conditional', 'par': s['par'], 'events': cachesim.strip_for_tlc(ev), 'steps': s['steps']})
+        # witness class: where the entry lives, and whether the only thing wrong is that hits after a 304 still carry the old headers
+        gens = [e.get('gen', 0) for e in ev if e['e'] == 'CResp' and e.get('hit')]
+        newest = max([e.get('gen', 0) for e in ev if e['e'] == 'OResp'] + [0])
+        cls = {'store': s.get('store', 'mem'), 'shape': s['par'].get('shape'), 'hit_with_older_header_generation': bool(gens) and min(gens) < newest}
+        if json.dumps(cls, sort_keys=True) in seen_cls or len(seen_cls) >= 6:
+            continue
+        seen_cls.add(json.dumps(cls, sort_keys=True))
+        ctx.violation('conditional request answered against Conditional.tla (%s): %s' % (cls['store'], json.dumps(s['par'])),
+                      {'kind': 'conditional', 'class': cls, 'par': s['par'], 'events': cachesim.strip_for_tlc(ev), 'steps': s['steps']})
     nd = 0
     st = {}
     for s, ev in out:
